@@ -3,12 +3,14 @@ import Ecal.Lemmas.C06Guards
 import Ecal.Model.Eval
 import Ecal.Lemmas.C06NoPanic
 import Ecal.Lemmas.C06FragB
+import Ecal.Lemmas.C06Bridge
+import Ecal.Props.C07
 /-!
 C06 — no ECAL program, sink attribute or event can crash the host process.
 
 * `prims_guarded`  every guarded call site of a panicking Go primitive never yields `panic`
 * `builtin_total`  every modelled builtin × every argument vector of any length: result ≠ panic
-* `eval_never_panics_partial`  the shared evaluator model never yields `panic` on well-formed trees of
+* `eval_never_panics_frag`  the shared evaluator model never yields `panic` on well-formed trees of
   the stated sub-language (see the docstring for what is missing from the full statement)
 * `error_in_try_catchable`  an error of the try body reaches the except dispatch
 * negative witnesses: the unguarded copies of the repaired sites do panic
@@ -228,7 +230,7 @@ theorem rangeFunc_total (args : List PVal) (hn : ∀ a ∈ args, a.NumOK) : isPa
     `0 ≤ int(x) → int(x) ≤ int(x+1) ≤ int(x)+1` for number arguments (true for every float64, NaN and ±Inf
     included, on every platform). This is a statement about the TRANSCRIPTION; it is compared with Go only
     where the driver falls back to it (≈13 % of the builtin cases); the builtins the correspondence compares
-    everywhere are `Ecal.Ev`'s `lenB addB delB concatB newB` (see `eval_never_panics_partial`: calls are the
+    everywhere are `Ecal.Ev`'s `lenB addB delB concatB newB` (see `eval_never_panics_frag`: calls are the
     remaining gap). `new` is not transcribed here any more (the model is `Ecal.Ev.newB`). -/
 theorem builtin_total (name : String) (args : List PVal) (hn : ∀ a ∈ args, a.NumOK) (r : R PVal)
     (h : builtin name args = some r) : isPanic r = false := by
@@ -341,6 +343,29 @@ theorem error_in_try_catchable (body : M Val) (handlers : List Handler) (oth : O
 example : ∃ s', (tryCore (throw (Sig.err ⟨"Operand is not a number", 1, 1⟩ none))
       [fun _ => pure (some (Val.num 7))] none).run.run {} = (.ok (Val.num 7), s') := ⟨_, rfl⟩
 
+/-- **eval_never_panics.** For EVERY tree the parser model returns (any token list), every scope, every fuel and
+    every state satisfying `Inv`, the evaluator model does not end in `panic`, and `Inv` holds afterwards.
+    Chain: C07's `parse_wellformed_strict` (every returned tree is `WellFormedRoot`) → `wellformed_frag`
+    (`Lemmas/C06Bridge.lean`: strictly well-formed trees are in `Frag`, induction on the size of the tree, one case
+    per node kind) → `eval_never_panics_frag`. Constructs outside the model (`sink import mutex like`, builtins the
+    model does not have) end in `unsupported`, never `panic`; what the statement says about the CODE and what it
+    needs besides (value-level guards, the two recorded findings) is spelled out at `eval_never_panics_frag`. -/
+theorem eval_never_panics (ts : List Ecal.Lex.Tok) (t : Ecal.Parse.Node)
+    (hparse : Ecal.Parse.parseToks ts = (some t, none)) (f sc : Nat) (s : St) (hs : Inv s) :
+    ((eval f sc t).run.run s).1 ≠ .error Sig.panic ∧ Inv ((eval f sc t).run.run s).2 :=
+  eval_frag_no_panic f sc t (wellformed_frag t (Ecal.Props.C07.parse_wellformed_strict ts t hparse)) s hs
+
+/-- `Inv` holds for the state a run starts from when the trees of the interpolation table are parser results too
+    (they are: `evPayload` builds the table with the same parser) and no function has been declared yet. -/
+theorem inv_initial (interp : List (List Nat × InterpEntry))
+    (h : ∀ code n, (code, InterpEntry.ast n) ∈ interp → ∃ ts, Ecal.Parse.parseToks ts = (some n, none)) :
+    Inv { interp := interp } := by
+  constructor
+  · intro fr hfr; simp at hfr
+  · intro code n hm
+    obtain ⟨ts, hts⟩ := h code n hm
+    exact wellformed_frag n (Ecal.Props.C07.parse_wellformed_strict ts n hts)
+
 /-- The evaluator model never yields `panic` on the fragment `Frag` (all constructs of the model, calls included).
 
     Statement: for every tree `n` in `Frag`, every scope `sc`, every state `s` with `Inv s` and every fuel `f`:
@@ -370,17 +395,17 @@ example : ∃ s', (tryCore (throw (Sig.err ⟨"Operand is not a number", 1, 1⟩
     * `try` with every clause shape (`except { }`, `except e { }`, `except as e { }`, typed `except "T", "U"
       [as e] { }`, `otherwise`, `finally`);
     * function declarations (named / anonymous, parameters with and without defaults).
-    REMAINING: the bridge from the parser (`WellFormed n → Frag n`, C07's predicate) is not proved — instead
-    `fragB` decides membership and the driver reports the measured share of generated trees inside `Frag`
-    (evidence `frag_share`); `validate` is a `partial def` of the shared model (not provable; tested);
+    The bridge from the parser is `wellformed_frag` (→ `eval_never_panics`); `fragB` decides membership on the
+    trees of the REAL Go parser (driver: `frag=1`, evidence `frag_share`), which ties the parser MODEL's claim to
+    the real parser's output on every generated case. `validate`: see `validate_never_panics`.
     sink / import / mutex are not in the model (engine path: test families A, E, K, modes s/d/w). -/
-theorem eval_never_panics_partial (f sc : Nat) (n : Ecal.Parse.Node) (hn : Frag n) (s : St) (hs : Inv s) :
+theorem eval_never_panics_frag (f sc : Nat) (n : Ecal.Parse.Node) (hn : Frag n) (s : St) (hs : Inv s) :
     ((eval f sc n).run.run s).1 ≠ .error Sig.panic ∧ Inv ((eval f sc n).run.run s).2 :=
   eval_frag_no_panic f sc n hn s hs
 
 /-- The decidable form the driver uses: `fragB` (run on the tree the REAL parser produced for every generated
     case; `frag=1` in the driver output, share in the evidence) implies the hypothesis of
-    `eval_never_panics_partial`. -/
+    `eval_never_panics_frag`. -/
 theorem eval_never_panics_checked (k f sc : Nat) (n : Ecal.Parse.Node) (hb : Ecal.FragB.fragB k n = true) (s : St) (hs : Inv s) :
     ((eval f sc n).run.run s).1 ≠ .error Sig.panic ∧ Inv ((eval f sc n).run.run s).2 :=
   eval_frag_no_panic f sc n (fragB_sound k n hb) s hs
